@@ -49,4 +49,4 @@ json.dump({"property":p,"tag":t,"id":f"{p}_{t}","demo_package_dir":dir_,
  "confirmed":{"demo_on_clean_tree":' '.join(cd.split()),"suite_with_patch":"all packages ok","demo_with_patch":' '.join(md.split())}},
  open(d+"/meta.json","w"),indent=1)
 PY
-/verif/tools/seeded_matrix.sh -j 1 ${P}_${T} 2>&1 | grep -v "^|" | grep -v WARNING
+/verif/tools/seeded_matrix.sh -j 1 ${P}_${T} 2>&1 | grep "^${P}_${T} "
